@@ -9,7 +9,8 @@
 //
 // ops
 //
-//	[1, n1, t1, n2, t2, ...]  UpdateClientConnState: priorities n1 n2 ... (policy type t in {0,1})
+//	[1, n1, t1, n2, t2, ...]  UpdateClientConnState: priorities n1 n2 ... (policy type t in 0..3;
+//	                          types 2 and 3 reject the first UpdateClientConnState after being built)
 //	[2, n, s, pk]             the built child policy of n calls UpdateState{s, picker pk}
 //	[3, d]                    d seconds pass (0 <= d <= 30)
 //	[4]                       Close
@@ -24,11 +25,12 @@
 // far (-1, -2 before the first); built_n = 1 iff a child policy for n is built and not
 // closed; s_i, p_i = the UpdateState calls the parent received during this op.
 // Picker ids: the id a stub attached, 0 = ErrNoSubConnAvailable placeholder,
-// -1 = ErrAllPrioritiesRemoved, -3 = anything else.
+// -1 = ErrAllPrioritiesRemoved, -4 = error picker of a child whose update failed, -3 = anything else.
 package vpriority
 
 import (
 	"encoding/json"
+	"errors"
 	"fmt"
 	"sort"
 	"sync"
@@ -83,6 +85,9 @@ func vPriorityPickerID(p balancer.Picker) int64 {
 	case priority.ErrAllPrioritiesRemoved:
 		return -1
 	}
+	if errors.Is(err, vPriorityErrUpdate) {
+		return -4
+	}
 	return -3
 }
 
@@ -108,11 +113,15 @@ type vPriorityChildCfg struct {
 	name int64
 }
 
+var vPriorityErrUpdate = errors.New("verif: child policy rejects its first update")
+
 type vPriorityChild struct {
 	e      *vPriorityEnv
 	cc     balancer.ClientConn
 	name   int64
 	closed bool
+	fail   bool // policy types 2, 3: reject the first UpdateClientConnState
+	nupd   int
 }
 
 func (c *vPriorityChild) UpdateClientConnState(s balancer.ClientConnState) error {
@@ -125,6 +134,10 @@ func (c *vPriorityChild) UpdateClientConnState(s balancer.ClientConnState) error
 	if c.name < 0 && !c.closed {
 		c.name = cfg.name
 		c.e.live[cfg.name] = c
+	}
+	c.nupd++
+	if c.fail && c.nupd == 1 {
+		return vPriorityErrUpdate
 	}
 	return nil
 }
@@ -152,10 +165,10 @@ func (b *vPriorityBuilder) Build(cc balancer.ClientConn, _ balancer.BuildOptions
 	e.mu.Lock()
 	defer e.mu.Unlock()
 	e.builds++
-	return &vPriorityChild{e: e, cc: cc, name: -1}
+	return &vPriorityChild{e: e, cc: cc, name: -1, fail: b.ty >= 2}
 }
 
-var vPriorityBuilders = []*vPriorityBuilder{{0}, {1}}
+var vPriorityBuilders = []*vPriorityBuilder{{0}, {1}, {2}, {3}}
 
 func init() {
 	for _, b := range vPriorityBuilders {
@@ -172,7 +185,7 @@ func vPriorityPairs(op []int64, k int64) ([][2]int64, bool) {
 	var l [][2]int64
 	for i := 0; i < len(r); i += 2 {
 		n, t := r[i], r[i+1]
-		if n < 0 || n >= k || (t != 0 && t != 1) || seen[n] {
+		if n < 0 || n >= k || t < 0 || t > 3 || seen[n] {
 			return nil, false
 		}
 		seen[n] = true
@@ -355,10 +368,18 @@ func vPriorityGen(r *vRand, tier string, idx int) ([]int64, [][]int64) {
 			{2, 1, 3, 112}, {1}, {1, 0, 0, 1, 0}, {3, 10}, {3, 10}, {3, 10}, {4}, {2, 0, 2, 113}, {3, 10},
 		}
 	}
+	if idx == 2 {
+		// child policies that reject their first update: failover inside start(), all failing,
+		// a failing lowest priority, recovery by a later report, policy-type change
+		return []int64{3}, [][]int64{
+			{1, 0, 2, 1, 0, 2, 0}, {2, 0, 2, 101}, {2, 0, 3, 102}, {1, 0, 2, 1, 2, 2, 2}, {2, 2, 2, 103},
+			{1, 0, 0, 1, 2, 2, 2}, {3, 10}, {3, 10}, {2, 1, 1, 104}, {2, 1, 2, 105}, {1, 2, 3}, {1, 2, 3, 0, 2}, {4},
+		}
+	}
 	if idx == 1 {
 		// malformed / boundary ops around a valid history
 		return []int64{2}, [][]int64{
-			{}, {1, 0}, {1, 0, 0, 0, 0}, {1, 2, 0}, {1, -1, 0}, {1, 0, 2}, {2, 0, 2, 5}, {1, 0, 0, 1, 1},
+			{}, {1, 0}, {1, 0, 0, 0, 0}, {1, 2, 0}, {1, -1, 0}, {1, 0, 4}, {2, 0, 2, 5}, {1, 0, 0, 1, 1},
 			{2, 0, 4, 7}, {2, 0, -1, 7}, {2, 5, 2, 7}, {2, 1, 2, 7}, {2, 0, 3}, {3, 31}, {3, -1}, {3}, {3, 0},
 			{4, 1}, {5}, {2, 0, 3, 8}, {3, 30}, {2, 1, 3, 9}, {2, 0, 1, 10}, {2, 0, 2, 11}, {4}, {4}, {1, 0, 0},
 		}
@@ -368,6 +389,13 @@ func vPriorityGen(r *vRand, tier string, idx int) ([]int64, [][]int64) {
 		k = 1
 	}
 	types := make([]int64, k)
+	if idx%3 == 0 {
+		for i := range types {
+			if r.Chance(35) {
+				types[i] = 2
+			}
+		}
+	}
 	var ops [][]int64
 	ops = append(ops, vPriorityPerm(r, k, types))
 	cur := ops[0]
@@ -406,6 +434,9 @@ func vPriorityGen(r *vRand, tier string, idx int) ([]int64, [][]int64) {
 		case x < 92:
 			if r.Chance(30) {
 				types[r.Intn(int(k))] ^= 1
+			}
+			if r.Chance(25) {
+				types[r.Intn(int(k))] ^= 2
 			}
 			if r.Chance(8) {
 				cur = []int64{1}
